@@ -206,11 +206,11 @@ def gen_histories(c, tier):
                 big = False
             elif cls == "medium":
                 size = r.randint(65, 300)
-                nops = int(size * r.uniform(2.5, 3.5))
+                nops = int(size * r.uniform(3.4, 4.4))
                 big = True
             else:
                 size = r.choice([r.randint(301, 2000), r.randint(1500, 2000)])
-                nops = int(size * r.uniform(2.6, 3.2))
+                nops = int(size * r.uniform(4.0, 4.6))
                 big = True
             h = Hist(r, cont, cmpn, size, nops, ins_pat, del_pat, big).build()
             h.cls = cls
@@ -598,7 +598,7 @@ def run(pid, tier, on_disagreement, fields, walk_all=False):
         dist["peak_size_max"] = max(dist["peak_size_max"], h.peak)
         c.note_case(ln, h.mutations >= 3)
     # bounded-exhaustive part: every reachable shape up to the bound, every Add into every gap, every Delete
-    bound = 6 if tier == "quick" else 10
+    bound = 6 if tier == "quick" else 12
     bfs = c.run_model(["rb", "bfs", str(bound)], "")
     summary = bfs[-1] if bfs and bfs[-1].startswith("#bfs") else ""
     bfs = [ln for ln in bfs if not ln.startswith("#")]
